@@ -5,7 +5,49 @@ import sys
 
 sys.path.insert(0, os.path.dirname(os.path.abspath(__file__)))
 from keybase import KeyCheck  # noqa: E402
-from vlib.runner import main  # noqa: E402
+from vlib import consts as K  # noqa: E402
+from vlib.env import hx  # noqa: E402
+from vlib.objects import (A, BOOL_ATTRS, BYTES_ATTRS, CLASSES, MECHS_ATTRS, T, TPL_ATTRS, ULONG_ATTRS, base_template, class_kind,  # noqa: E402
+                          kind_of)
+from vlib.runner import Violation, main  # noqa: E402
+
+RW = K.CKF_SERIAL_SESSION | K.CKF_RW_SESSION
+# PKCS#11 v2.40: the attributes that MAY be modified after the object exists (footnote 8 of table 10 and of the per-class tables; footnotes
+# 11 / 12 for the one-way flags), transcribed per class kind.  Everything else is read-only once the object exists.
+_KEYS = ["CKA_ID", "CKA_START_DATE", "CKA_END_DATE", "CKA_DERIVE"]
+SPEC_MODIFIABLE = {
+    "data": [], "params": [],
+    "cert": ["CKA_ID", "CKA_ISSUER", "CKA_SERIAL_NUMBER", "CKA_TRUSTED"],
+    "public": _KEYS + ["CKA_SUBJECT", "CKA_ENCRYPT", "CKA_VERIFY", "CKA_VERIFY_RECOVER", "CKA_WRAP", "CKA_TRUSTED"],
+    "private": _KEYS + ["CKA_SUBJECT", "CKA_SENSITIVE", "CKA_DECRYPT", "CKA_SIGN", "CKA_SIGN_RECOVER", "CKA_UNWRAP", "CKA_EXTRACTABLE", "CKA_WRAP_WITH_TRUSTED",
+                        "CKA_PUBLIC_KEY_INFO"],
+    "secret": _KEYS + ["CKA_SENSITIVE", "CKA_ENCRYPT", "CKA_DECRYPT", "CKA_SIGN", "CKA_VERIFY", "CKA_WRAP", "CKA_UNWRAP", "CKA_EXTRACTABLE", "CKA_WRAP_WITH_TRUSTED",
+                       "CKA_TRUSTED"],
+}
+SPEC_COMMON = ["CKA_LABEL", "CKA_COPYABLE", "CKA_DESTROYABLE"]          # (footnote 12: may be set to false once)
+SPEC_COPY_ONLY = ["CKA_TOKEN", "CKA_PRIVATE", "CKA_MODIFIABLE"]         # C_CopyObject may also change these
+ALL_NAMES = BOOL_ATTRS + ULONG_ATTRS + MECHS_ATTRS + BYTES_ATTRS + TPL_ATTRS
+
+
+def spec_kind(cls):
+    k = class_kind(cls)
+    return k if k in SPEC_MODIFIABLE else ("params" if cls.endswith("_params") else "data")
+
+
+def another_value(name, cur):
+    """a well-formed value for attribute `name` that differs from the object's current one"""
+    k = kind_of(K.C[name])
+    if k == "bool":
+        return (not cur) if isinstance(cur, bool) else True
+    if k == "ulong":
+        return {"CKA_CLASS": "CKO_DATA", "CKA_KEY_TYPE": "CKK_GENERIC_SECRET", "CKA_CERTIFICATE_TYPE": "CKC_WTLS", "CKA_KEY_GEN_MECHANISM": "CKM_DES3_KEY_GEN"}.get(name, 24)
+    if k == "mechs":
+        return ["CKM_SHA_1"]
+    if k == "tpl":
+        return [("CKA_EXTRACTABLE", True)]
+    if name in ("CKA_START_DATE", "CKA_END_DATE"):
+        return b"20300101"
+    return b"\x31\x32\x33\x34\x35"
 
 
 class C08(KeyCheck):
@@ -26,7 +68,120 @@ class C08(KeyCheck):
     assumptions = ["the judged read-only set is the conservative subset no token may allow to change (class, key type, value, "
                    "value length, history attributes; for C_SetAttributeValue also TOKEN and PRIVATE)",
                    "default values of unspecified flags are read, not predicted"]
+    rule_table = ("Attribute-policy table, enumerated completely in every run: 20 object classes x 70 attribute types x {C_SetAttributeValue, C_CopyObject} with a "
+                  "well-formed value that differs from the current one: IF the call succeeds THEN PKCS#11 v2.40 lets that attribute be modified for that class "
+                  "(footnote 8 / 11 / 12 tables, transcribed); and for every class and every modifiable attribute: an object with CKA_MODIFIABLE=false refuses the "
+                  "change, with CKA_COPYABLE=false the copy, with CKA_DESTROYABLE=false the destruction.")
     essential_labels = {"history_attr_checked": 10000, "history_attr_supplied": 3000, "readonly_attempts": 1500, "derive_ok": 1000, "copy_ok": 500}
+
+    # -- the attribute-policy table: small scope, enumerated completely -------------------------------------------------------------------
+    def extra(self, ctx, tier, shard, nshards):
+        cells = [(cls, name, op) for cls in CLASSES for name in ALL_NAMES for op in ("set", "copy")]
+        cells += [(cls, name, "locked") for cls in CLASSES for name in SPEC_COMMON[:1] + SPEC_MODIFIABLE[spec_kind(cls)]]
+        cells += [(cls, None, op) for cls in CLASSES for op in ("nocopy", "nodestroy")]
+        ctx.extra["policy_cells_total"] = len(cells) if shard == 0 else 0
+        w = ctx.shared["stage"].fresh()
+        tok = ctx.shared["tpl"].tokens[0]
+        s = w.C_OpenSession(slot=tok.slot, flags=RW)["h"]
+        if w.C_Login(s=s, user=K.CKU_USER, pin=hx(tok.user_pin))["rv"] != 0:
+            raise RuntimeError("login failed")
+        try:
+            for i, (cls, name, op) in enumerate(cells):
+                if i % nshards != shard:
+                    continue
+                prog = {"policy_cell": [cls, name, op]}
+                extra_ = {"locked": [("CKA_MODIFIABLE", False)], "nocopy": [("CKA_COPYABLE", False)], "nodestroy": [("CKA_DESTROYABLE", False)]}.get(op, [])
+                r = w.C_CreateObject(s=s, tpl=T(*base_template(cls, 1)) + T(("CKA_TOKEN", False), ("CKA_PRIVATE", False)) + T(*extra_))
+                if r["rv"] != 0:
+                    ctx.label("policy_object_not_creatable")
+                    continue
+                h = r["h"]
+                ctx.steps += 1
+                try:
+                    if op == "nocopy":
+                        rr = w.C_CopyObject(s=s, o=h, tpl=[])
+                        if rr["rv"] == 0:
+                            return Violation("[policy table] C_CopyObject copied a %s object whose CKA_COPYABLE is false" % cls, prog)
+                        ctx.label("policy_cells")
+                        continue
+                    if op == "nodestroy":
+                        rr = w.C_DestroyObject(s=s, o=h)
+                        if rr["rv"] == 0:
+                            return Violation("[policy table] C_DestroyObject destroyed a %s object whose CKA_DESTROYABLE is false" % cls, prog)
+                        ctx.label("policy_cells")
+                        continue
+                    cur = w.readattrs(s=s, o=h, types=[K.C[name]])["attrs"][str(K.C[name])]
+                    curv = (cur[1] == "01") if (cur[0] == 0 and kind_of(K.C[name]) == "bool") else None
+                    tpl = [A(name, another_value(name, curv))]
+                    if op in ("set", "locked"):
+                        rr = w.C_SetAttributeValue(s=s, o=h, tpl=tpl)
+                    else:
+                        rr = w.C_CopyObject(s=s, o=h, tpl=tpl)
+                        if rr["rv"] == 0:
+                            w.C_DestroyObject(s=s, o=rr["h"])
+                    if op == "locked":
+                        if rr["rv"] == 0:
+                            return Violation("[policy table] C_SetAttributeValue(%s) changed a %s object whose CKA_MODIFIABLE is false" % (name, cls), prog)
+                    elif rr["rv"] == 0:
+                        allowed = SPEC_COMMON + SPEC_MODIFIABLE[spec_kind(cls)] + (SPEC_COPY_ONLY if op == "copy" else [])
+                        if name not in allowed:
+                            return Violation("[policy table] %s accepted %s on a %s object; PKCS#11 does not let that attribute be modified once the object exists" % (
+                                "C_SetAttributeValue" if op == "set" else "C_CopyObject", name, cls), prog)
+                        ctx.label("policy_cells_accepted")
+                    else:
+                        ctx.label("policy_cells_refused")
+                    ctx.label("policy_cells")
+                    ctx.case(prog, rr["rv"] != 0 and op != "locked", ["policy"])
+                finally:
+                    w.C_DestroyObject(s=s, o=h)
+        finally:
+            w.C_CloseSession(s=s)
+        return None
+
+    def run_program(self, ctx, prog):
+        if isinstance(prog, dict) and prog.get("policy_cell"):
+            cls, name, op = prog["policy_cell"]
+            v = self._one_policy_cell(ctx, cls, name, op)
+            if v is not None:
+                raise v
+            return
+        return KeyCheck.run_program(self, ctx, prog)
+
+    def _one_policy_cell(self, ctx, cls, name, op):
+        """replay of one cell (same code path as the sweep, restricted to the cell)"""
+        saved = list(CLASSES)
+        import vlib.objects as O
+        try:
+            keep = [(cls, name, op)]
+            w = ctx.shared["stage"].fresh()
+            tok = ctx.shared["tpl"].tokens[0]
+            s = w.C_OpenSession(slot=tok.slot, flags=RW)["h"]
+            w.C_Login(s=s, user=K.CKU_USER, pin=hx(tok.user_pin))
+            extra_ = {"locked": [("CKA_MODIFIABLE", False)], "nocopy": [("CKA_COPYABLE", False)], "nodestroy": [("CKA_DESTROYABLE", False)]}.get(op, [])
+            r = w.C_CreateObject(s=s, tpl=T(*base_template(cls, 1)) + T(("CKA_TOKEN", False), ("CKA_PRIVATE", False)) + T(*extra_))
+            if r["rv"] != 0:
+                return None
+            h = r["h"]
+            prog = {"policy_cell": [cls, name, op]}
+            if op == "nocopy":
+                return Violation("[policy table] C_CopyObject copied a %s object whose CKA_COPYABLE is false" % cls, prog) if w.C_CopyObject(s=s, o=h, tpl=[])["rv"] == 0 else None
+            if op == "nodestroy":
+                return Violation("[policy table] C_DestroyObject destroyed a %s object whose CKA_DESTROYABLE is false" % cls, prog) if w.C_DestroyObject(s=s, o=h)["rv"] == 0 else None
+            cur = w.readattrs(s=s, o=h, types=[K.C[name]])["attrs"][str(K.C[name])]
+            curv = (cur[1] == "01") if (cur[0] == 0 and kind_of(K.C[name]) == "bool") else None
+            tpl = [A(name, another_value(name, curv))]
+            rr = w.C_SetAttributeValue(s=s, o=h, tpl=tpl) if op in ("set", "locked") else w.C_CopyObject(s=s, o=h, tpl=tpl)
+            if rr["rv"] != 0:
+                return None
+            if op == "locked":
+                return Violation("[policy table] C_SetAttributeValue(%s) changed a %s object whose CKA_MODIFIABLE is false" % (name, cls), prog)
+            allowed = SPEC_COMMON + SPEC_MODIFIABLE[spec_kind(cls)] + (SPEC_COPY_ONLY if op == "copy" else [])
+            if name not in allowed:
+                return Violation("[policy table] %s accepted %s on a %s object; PKCS#11 does not let that attribute be modified once the object exists" % (
+                    "C_SetAttributeValue" if op == "set" else "C_CopyObject", name, cls), prog)
+            return None
+        finally:
+            pass
 
 
 if __name__ == "__main__":
